@@ -58,14 +58,15 @@ func TestHnetOracleSensitivity(t *testing.T) {
 		}
 		fired[what]++
 	}
-	for _, p := range []netsim.Params{{}, {Omission: true}} {
-		for seed := 0; seed < 400; seed++ {
+	for _, p := range []netsim.Params{{}, {Omission: true}, {Snaplen: true}, {NoSYN: true}, {Large: true}} {
+		for seed := 0; seed < 250; seed++ {
 			tape := simrt.NewTape(simrt.Mix(4242, uint64(seed)))
 			w := netsim.Generate(tape, p)
 			w.Run()
 			if w.Err != "" {
 				t.Fatalf("seed %d: %s", seed, w.Err)
 			}
+			netsim.WriteCapture(w, netsim.DrawCaptureSpec(tape, p)) // the snap length decides what the capture holds
 			tr := netsim.ComputeTruth(w)
 			if v := hnetVerdict(hnetPerfect(tr), tr, p); len(v) != 0 {
 				t.Fatalf("seed %d: a report equal to the ground truth is rejected: %v", seed, v)
@@ -114,7 +115,25 @@ func TestHnetOracleSensitivity(t *testing.T) {
 				}
 				f := hnetPerfect(tr)
 				f.Conns[i].Client, f.Conns[i].Server = f.Conns[i].Server, f.Conns[i].Client
-				expect(seed, "client and server swapped", hnetVerdict(f, tr, p), "endpoint-mismatch")
+				if tr.Conns[i].FirstIsSYN {
+					expect(seed, "client and server swapped", hnetVerdict(f, tr, p), "endpoint-mismatch")
+				} else {
+					// the capture does not begin with the client's SYN: either labelling
+					// is accepted as long as bytes go with their address and port
+					if v := hnetVerdict(f, tr, p); len(v) != 0 {
+						t.Fatalf("seed %d: first sender labelled client rejected although the SYN is not in the capture: %v", seed, v)
+					}
+					fired["either labelling accepted without SYN"]++
+					// ... but not the addresses swapped under the streams
+					f = hnetPerfect(tr)
+					c := &f.Conns[i]
+					c.Client.IP, c.Server.IP = c.Server.IP, c.Client.IP
+					c.Client.Port, c.Server.Port = c.Server.Port, c.Client.Port
+					a, b := &tr.Conns[i].Dirs[0], &tr.Conns[i].Dirs[1]
+					if string(a.Expect) != string(b.Expect) {
+						expect(seed, "endpoints swapped under the streams", hnetVerdict(f, tr, p), "stream-mismatch")
+					}
+				}
 				f = hnetPerfect(tr)
 				f.Conns[i].Client.Port ^= 1
 				expect(seed, "wrong port", hnetVerdict(f, tr, p), "endpoint-mismatch")
@@ -159,7 +178,7 @@ func TestHnetOracleSensitivity(t *testing.T) {
 		}
 	}
 	for _, what := range []string{"flipped stream bit", "stream one byte short", "last byte repeated", "data beyond the hole", "extra byte", "skipped without a hole", "hole not signalled",
-		"client and server swapped", "wrong port", "connection missing", "connection listed twice", "connections out of order", "reassembled datagram missing",
+		"client and server swapped", "either labelling accepted without SYN", "endpoints swapped under the streams", "wrong port", "connection missing", "connection listed twice", "connections out of order", "reassembled datagram missing",
 		"reassembled payload corrupted", "reassembled raw bytes corrupted", "reassembled source wrong", "reassembled entry not decoded", "unknown datagram listed", "reassembled out of order"} {
 		if fired[what] == 0 {
 			t.Errorf("corruption %q was never exercised", what)
